@@ -2,7 +2,10 @@
 
 package sm3
 
-import "hash"
+import (
+	"hash"
+	"unsafe"
+)
 
 // Hooks for the verification harness (build tag "verif" only): read and overwrite the internal
 // state of a hash made by New, so that length-counter boundaries are reachable without
@@ -20,4 +23,16 @@ func VerifSetState(h hash.Hash, digest [8]uint32, length uint64, tail []byte) {
 func VerifGetState(h hash.Hash) (digest [8]uint32, length uint64, tail []byte) {
 	s := h.(*SM3)
 	return s.digest, s.length, append([]byte{}, s.unhandleMsg...)
+}
+
+// VerifTailOverlaps reports whether the backing array of the unprocessed tail (over its whole
+// capacity) overlaps the backing array of p (over its whole capacity).
+func VerifTailOverlaps(h hash.Hash, p []byte) bool {
+	t := h.(*SM3).unhandleMsg
+	if cap(t) == 0 || cap(p) == 0 {
+		return false
+	}
+	t0 := uintptr(unsafe.Pointer(&t[:cap(t)][0]))
+	p0 := uintptr(unsafe.Pointer(&p[:cap(p)][0]))
+	return t0 < p0+uintptr(cap(p)) && p0 < t0+uintptr(cap(t))
 }
